@@ -775,7 +775,7 @@ fn check_itersim(o: &Opts) {
 			"coverage": {
 				"evaluations": runs,
 				"distinct_nontrivial": distinct.len(),
-				"rule": "one case = (family, generated stand-alone path, schedule of n+3 front/back steps, segments() or normalized_segments()); every step is compared with a VecDeque of the independent '/'-split by text and byte offset; derived queries checked on the same path; non-trivial = path longer than one byte; distinct = distinct hash of (family, path, schedule, iterator kind) (hash set, capped at 2 000 000 entries per worker: a lower bound once the cap is reached)",
+				"rule": "one case = (family, generated stand-alone path, schedule of n+3 front/back steps, segments() or normalized_segments(), iterator obtained through segments() or IntoIterator for &Path); one case in three also schedules compound steps - nth(k), nth_back(k), and, ending the schedule, the consuming count(), last(), collect(), rev().collect(), fold() called on the iterator itself so that an overriding implementation is the code that runs - each held to the equivalent number of single steps; every step is compared with a VecDeque of the independent '/'-split by text and byte offset; derived queries checked on the same path; non-trivial = path longer than one byte; distinct = distinct hash of (family, path, schedule, iterator kind) (hash set, capped at 2 000 000 entries per worker: a lower bound once the cap is reached)",
 				"samples": samples,
 				"exhaustive": false,
 				"engine": "itersim",
